@@ -36,6 +36,24 @@ func (ex *Ex) hardcoded(fr *Frame, st *State, ins ssa.Instruction, callee *ssa.F
 		st.Assume(Eq(App("rtid", SInt, App("rtref", SRef, Dyn(x))), Dyn(x)))
 		k(st, Val{T: Ite(IfaceIsNil(x), NilIface, rt)})
 		return true
+	case "runtime.Callers":
+		// ghost frame level (DESIGN §2.6): Callers(skip) called at level L records level L-skip+1 first
+		ex.note("extern axiom: runtime.Callers(skip, pc) called at frame level L records the frame at level L-(skip-1) first (logical frames, inlining-aware)")
+		if fr.Lvl != nil {
+			st.ghost["$cap"] = SV{T: Add(Sub(fr.Lvl, targ(0)), IntLit(1)), Ty: tInt}
+		}
+		n := ex.FreshVar("r$Callers", SInt)
+		st.Assume(And(Ge(n, IntLit(0)), Le(n, w.SliceLen(targ(1)))))
+		k(st, Val{T: n})
+		return true
+	case "runtime.Caller":
+		ex.note("extern axiom: runtime.Caller(skip) called at frame level L denotes the frame at level L-skip")
+		if fr.Lvl != nil {
+			st.ghost["$dom"] = SV{T: Sub(fr.Lvl, targ(0)), Ty: tInt}
+		}
+		res, _ := ex.freshResults("Caller", callee.Signature)
+		k(st, res)
+		return true
 	case "fmt.Sprintf":
 		ex.note("extern: fmt.Sprintf is an uninterpreted function of its format and arguments (axioms in prelude for fixed formats)")
 		f := targ(0)
@@ -47,16 +65,16 @@ func (ex *Ex) hardcoded(fr *Frame, st *State, ins ssa.Instruction, callee *ssa.F
 			for i := 0; i < n; i++ {
 				ts = append(ts, Select(st.cells[av.Back], Add(av.BackOff, IntLit(int64(i)))))
 			}
-			k(st, Val{T: App(fmt.Sprintf("x$sprintf%d", n), SString, ts...)})
+			k(st, Val{T: App(fmt.Sprintf("f$sprintf%d", n), SString, ts...)})
 			return true
 		}
 		if av.T != nil || av.IsZero() {
 			// nil / symbolic varargs
 			if av.IsZero() || (av.T.Kind == kApp && len(av.T.Args) == 3 && av.T.Args[1].String() == "0") {
-				k(st, Val{T: App("x$sprintf0", SString, f)})
+				k(st, Val{T: App("f$sprintf0", SString, f)})
 				return true
 			}
-			k(st, Val{T: App("x$sprintfN", SString, f, av.T)})
+			k(st, Val{T: App("f$sprintfN", SString, f, av.T)})
 			return true
 		}
 	}
